@@ -218,6 +218,52 @@ def progGet? (p : Prog) (name : String) : Option Body :=
   | some f => some f.body
   | none => none
 
+/-! `extendLinks`: relative icons of an imported map are re-based on the directory of the import -/
+
+def isRemote (v : String) : Bool :=
+  v.startsWith "/" || (v.splitOn "://").length > 1
+
+def iconKey (k : Key) : Bool :=
+  match k.getLast? with
+  | some s => s.q == 0 && s.s == "icon"
+  | none => false
+
+mutual
+def rebaseVal (d : String) : Val → Val
+  | .map b => .map (rebaseBody d b)
+  | v => v
+def rebaseStmt (d : String) : Stmt → Stmt
+  | .field a k p (.scal v) =>
+    if iconKey k then
+      match v.text? with
+      | some t => if t == "" || isRemote t then .field a k p (.scal v) else .field a k p (.scal (litScal 0 (join [d, t])))
+      | none => .field a k p (.scal v)
+    else .field a k p (.scal v)
+  | .field a k p v => .field a k p (rebaseVal d v)
+  | .edge c s ar ds i ek p v => .edge c s ar ds i ek p (rebaseVal d v)
+  | s => s
+def rebaseBody (d : String) : List Stmt → List Stmt
+  | [] => []
+  | s :: r => rebaseStmt d s :: rebaseBody d r
+end
+
+/-- `Import.Dir()` -/
+def importDir (raw : String) : String := dir (pathWithPre raw)
+
+/-- the declaration `key: prim {…}` selected by an import key path inside a body (declared exactly once) -/
+def selectKey : List String → Body → Option (Option Scal × Val)
+  | [], _ => none
+  | k :: rest, body =>
+    match body.filter (fun s => match s with
+        | .field 0 [n] _ _ => n.q == 0 && n.s == k
+        | _ => false) with
+    | [.field _ _ p v] =>
+      if rest.isEmpty then some (p, v)
+      else match v with
+        | .map b => selectKey rest b
+        | _ => none
+    | _ => none
+
 inductive InlErr
   | cycle
   | missing (path : String)
@@ -231,13 +277,15 @@ def inlineVal : Nat → Prog → List String → Val → Except InlErr Val
   | 0, _, _, _ => .error .cycle
   | n + 1, files, stack, .map b => do pure (.map (← inlineBody (n + 1) files stack b))
   | n + 1, files, stack, .imp raw =>
-    if !(parseImp raw).keys.isEmpty then .error (.keys raw) else
     match push stack raw with
     | .cycle _ => .error .cycle
     | .pushed stack' p =>
       match progGet? files p with
       | none => .error (.missing p)
-      | some content => do pure (.map (← inlineBody n files stack' content))
+      | some content => do
+        let inl ← inlineBody n files stack' content
+        if (parseImp raw).keys.isEmpty then pure (.map (rebaseBody (importDir raw) inl))
+        else .error (.keys raw)   -- key imports are resolved at the declaration (they may carry a primary value)
   | _ + 1, _, _, v => pure v
 def inlineBody : Nat → Prog → List String → List Stmt → Except InlErr (List Stmt)
   | _, _, _, [] => pure []
@@ -252,7 +300,26 @@ def inlineBody : Nat → Prog → List String → List Stmt → Except InlErr (L
       | some content => do
         let a ← inlineBody n files stack' content
         let b ← inlineBody (n + 1) files stack rest
-        pure (a ++ b)
+        pure (rebaseBody (importDir raw) a ++ b)
+  | n + 1, files, stack, .field a k p (.imp raw) :: rest =>
+    if (parseImp raw).keys.isEmpty then do
+      let v' ← inlineVal (n + 1) files stack (.imp raw)
+      let r ← inlineBody (n + 1) files stack rest
+      pure (.field a k p v' :: r)
+    else
+      -- `k: @file.a.b`: the field `a.b` of the imported map (primary value and composite; no re-basing: `extendLinks`
+      -- only runs when a whole map is imported)
+      match push stack raw with
+      | .cycle _ => .error .cycle
+      | .pushed stack' q =>
+        match progGet? files q with
+        | none => .error (.missing q)
+        | some content => do
+          let inl ← inlineBody n files stack' content
+          let r ← inlineBody (n + 1) files stack rest
+          match selectKey (parseImp raw).keys inl with
+          | some (p', v') => pure (.field a k p' v' :: r)
+          | none => .error (.keys raw)
   | n + 1, files, stack, .field a k p v :: rest => do
     let v' ← inlineVal (n + 1) files stack v
     let r ← inlineBody (n + 1) files stack rest
